@@ -392,3 +392,22 @@ Proof.
   exists (Q2Qc (34359738369 # 2)), (Q2Qc (17179869184 # 1)), (Q2Qc (17179869185 # 1)).
   repeat split; vm_compute; reflexivity.
 Qed.
+
+(* ---------- LejaGrid1D.level_to_num_points_1d (translated since the repair 28a24e9 put it inside the subset) ---------- *)
+(* with linear_growth_factor = 2 (set by the constructor): the points including the boundary are leja_npwb, and only the points on
+   touched sides of the domain are dropped - the count of the repaired model (leja_info_fx) *)
+Theorem gen_leja_level_to_num_points bnd s e a b l :
+  LejaGrid1D_level_to_num_points_1d bnd s e a b 2 (Z.of_nat l)
+  = Some (Z.of_nat (num_points_eq bnd (touch_tol s a a b) (touch_tol e b a b) (leja_npwb l))).
+Proof.
+  unfold LejaGrid1D_level_to_num_points_1d, LejaGrid1D_level_to_num_points_with_boundary_1d, num_points_eq, touch_tol.
+  assert (Hw : (2 <= leja_npwb l)%nat) by (destruct l; cbn; lia).
+  assert (Ew : (if (Z.of_nat l =? 0)%Z then 2 else 2 * (Z.of_nat l + 1) - 1)%Z = Z.of_nat (leja_npwb l)).
+  { destruct l as [|l]; [reflexivity|]. replace (Z.of_nat (S l) =? 0)%Z with false by (symmetry; apply Z.eqb_neq; lia).
+    unfold leja_npwb. lia. }
+  destruct (Z.of_nat l =? 0)%Z eqn:E0; py_step; resolve_calls; py_step; cbn [negb];
+    destruct bnd; cbn [negb]; py_step; f_equal;
+    change (py_Qc 1 100000000) with (Q2Qc (1 # 100000000));
+    destruct (Qc_leb (Qc_abs (s - a)) (Q2Qc (1 # 100000000) * Qc_abs (b - a)));
+    destruct (Qc_leb (Qc_abs (e - b)) (Q2Qc (1 # 100000000) * Qc_abs (b - a))); cbn [b2n Nat.add]; lia.
+Qed.
